@@ -380,7 +380,9 @@ Proof.
     + rewrite Hp. exact Hval.
     + unfold with_row. rewrite set_nth_same by exact Hf. unfold in_range. intros t c Hc. cbn beta in Hc.
       destruct (Nat.lt_ge_cases t (length w)) as [Ht|Ht].
-      * rewrite (nth_map_in Some w t 0 None) in Hc by exact Ht. inversion Hc; subst. apply Hlt. apply nth_In. exact Ht.
+      * pose proof (nth_map_in (@Some nat) w t 0 None Ht) as Hx.
+        assert (Hc' : Some c = Some (nth t w 0)) by (rewrite <- Hx; symmetry; exact Hc).
+        inversion Hc'; subst. apply Hlt. apply nth_In. exact Ht.
       * rewrite nth_overflow in Hc by (rewrite map_length; lia). discriminate.
 Qed.
 
